@@ -2,7 +2,7 @@
    `quad_problem` with provider mask `bits`, compared with what the real interface (TypeErasedProblem,
    reached directly / through ProblemWithCounters / as FunctionalProblem) returned, including the call log. *)
 From Coq Require Import Floats List ZArith Bool PeanoNat.
-From Alpaqa Require Import Num NumF Vec Prox AugLag.
+From Alpaqa Require Import Num NumF Vec Prox AugLag VtableGen.
 Import ListNotations.
 
 Definition obs04 := (float * list float * list float * list nat)%type.
@@ -52,6 +52,43 @@ Definition model04 (cs : c04case) : list obs04 :=
          match fst e8 with Some h => h | None => [] end, [], L (snd e8)) ]
   end.
 
+(* the same observation computed with the terms GENERATED from the sources (coq/gen/VtableGen.v); the driver fills the
+   ŷ buffer with NaN before the call, so an untouched buffer of size m shows up as NaN *)
+Definition model04g (cs : c04case) : list obs04 :=
+  match cs with
+  | C04 route Q c A At b w lb ub x y Σ bits scale v _ =>
+      let P0 := quad_problem Q c A At b w (map lb_of_float lb) (map ub_of_float ub) in
+      (* the driver's class poisons the output of a Hessian product it does not provide *)
+      let P := if Nat.testbit bits 8 then P0 else
+               {| pf := pf P0; pgrad_f := pgrad_f P0; pg := pg P0; pgrad_g_prod := pgrad_g_prod P0; plb := plb P0; pub := pub P0;
+                  uf_grad_f := uf_grad_f P0; uf_g := uf_g P0; ugrad_f_grad_g_prod := ugrad_f_grad_g_prod P0;
+                  ugrad_L := ugrad_L P0; upsi := upsi P0; ugrad_psi := ugrad_psi P0; upsi_grad_psi := upsi_grad_psi P0;
+                  uhess_L_prod := uhess_L_prod P0;
+                  uhess_psi_prod := fun _ _ _ _ v => map (fun _ => nan) v |} in
+      let pr := if Nat.eqb route 2 then counters_prov false (prov_of_bits bits) else prov_of_bits bits in
+      let L := codes (Nat.eqb route 1) in
+      let z := 0%float in
+      let e0 := gvt_eval_f_grad_f P pr x in
+      let e1 := gvt_eval_f_g P pr x in
+      let e2 := gvt_eval_grad_f_grad_g_prod P pr x y in
+      let e3 := gvt_eval_grad_L P pr x y in
+      let e4 := gvt_eval_psi P pr x y Σ (map (fun _ => nan) y) in
+      let e5 := gvt_eval_grad_psi P pr x y Σ in
+      let e6 := gvt_eval_psi_grad_psi P pr x y Σ in
+      let e7 := gcalc P (pg P x) y Σ in
+      let e8 := gvt_eval_hess_psi_prod P pr (length b) x y Σ scale v in
+      [ (fst (fst e0), snd (fst e0), [], L (snd e0));
+        (fst (fst e1), snd (fst e1), [], L (snd e1));
+        (z, fst (fst e2), snd (fst e2), L (snd e2));
+        (z, fst e3, [], L (snd e3));
+        (fst (fst e4), snd (fst e4), [], L (snd e4));
+        (z, fst e5, [], L (snd e5));
+        (fst (fst e6), snd (fst e6), [], L (snd e6));
+        (fst (fst e7), snd (fst e7), [], L (snd e7));
+        (match fst e8 with Some _ => 1%float | None => z end,
+         match fst e8 with Some h => h | None => [] end, [], L (snd e8)) ]
+  end.
+
 (* the call log is compared as a multiset (how often each user member was called): the order of independent
    calls inside a default composition is not part of the property *)
 Definition hist (l : list nat) : list nat := map (fun k => count_occ Nat.eq_dec l k) (seq 0 14).
@@ -62,4 +99,9 @@ Definition obs_agree (a b : obs04) : bool :=
 Definition chk04 (cs : c04case) : bool :=
   match cs with
   | C04 _ _ _ _ _ _ _ _ _ _ _ _ _ _ _ obs => list_agree obs_agree (model04 cs) obs
+  end.
+
+Definition chk04g (cs : c04case) : bool :=
+  match cs with
+  | C04 _ _ _ _ _ _ _ _ _ _ _ _ _ _ _ obs => list_agree obs_agree (model04g cs) obs
   end.
